@@ -118,6 +118,17 @@ CLAIMS["C16"] = (
     "string comparisons feeding setters). D4 and D5 were written after seeds C16-a/b were known.",
     "DESIGN.md 4/C16")
 
+CLAIMS["C18"] = (
+    "R-LOCKSET on AST scopes with who-may-call for lambdas that touch guarded data, predicate-overload / notify presence for condition variables, branch-edge dominance of the unsigned "
+    "budget difference, pairing of the running counter with the running list, join presence and model-argument check",
+    "Static rule discharge over constructCommon<true,*>, the threaded loadNeededValues and CandidateManager: every access to work_flag/count_done/checked_out happens under a live RAII "
+    "lock on the associated mutex (directly, through all callers of the accessing lambda, or in a wait predicate), except a worker's own slot written before its thread exists; waits use "
+    "predicates and are notified; every unsigned budget difference is guarded; the running-job counter only changes together with the running list; threads are joined and each worker "
+    "calls the model with its own slot. These lock-discipline facts hold for every schedule because they are facts about scopes, not about interleavings.",
+    "Deadlock freedom, absence of lost wake-ups and exactly-once hand-out over all schedules are properties of interleavings (model checking territory) and are not decided; the "
+    "decided clauses are necessary conditions for them.",
+    "DESIGN.md 4/C18")
+
 PENDING = {}
 
 NOT_APPLICABLE = {}
